@@ -172,3 +172,50 @@ contract(U + "Base.__init__",
     raises=[],
     serves=["C10"],
 )
+
+# --- U10: what a statement prints in front of its text ----------------------------------------------------
+contract(U + "StmtBase.tofortran",
+    types=dict(self="StmtBase", tab="str", isfix="bool?"),
+    returns="str",
+    requires={"free_form": "isfix is None or not isfix"},
+    ensures={
+        "plain": "implies(self.item is None or ((self.item.label is None or self.item.label == 0) and not given(self.item.name)), result == tab + str(self))",
+        "label_then_text": "implies(self.item is not None and self.item.label is not None and self.item.label != 0 and not given(self.item.name), "
+                           "result == str(self.item.label) + (tab[len(str(self.item.label)):] if tab[len(str(self.item.label)):] != '' else ' ') + str(self))",
+        "name_colon_text": "implies(self.item is not None and (self.item.label is None or self.item.label == 0) and given(self.item.name), "
+                           "result == tab + self.item.name + ':' + str(self))",
+        "label_name_text": "implies(self.item is not None and self.item.label is not None and self.item.label != 0 and given(self.item.name), "
+                           "result == str(self.item.label) + (tab[len(str(self.item.label)):] if tab[len(str(self.item.label)):] != '' else ' ') "
+                           "+ self.item.name + ':' + str(self))",
+        "statement_text_is_last": "result.endswith(str(self))",
+    },
+    raises=[],
+    serves=["C01", "C02"],
+    note="str(self) (the rule's tostr) is uninterpreted here; label and name come from the reader item (R3, R4)",
+)
+
+# --- U9: a block prints every child once, in order ----------------------------------------------------------
+contract(U + "BlockBase.tofortran",
+    types=dict(self="BlockBase", tab="str", isfix="bool?"),
+    returns="str",
+    locals=dict(mylist="list[str]"),
+    calls={"*.tofortran": "pure:str"},
+    requires={"no_hole": "True"},
+    ensures={"empty_block_prints_nothing": "implies(len(self.content) == 0, result == '')"},
+    ensures_local={
+        "one_piece_per_child@ret1": "len(mylist) == len(self.content)",
+        "first_child_at_tab@ret1": "mylist[0] == self.content[0].tofortran(tab=tab, isfix=isfix)",
+        "middle_children_in_order@ret1": "all(mylist[k] == self.content[k].tofortran(tab=tab + extra_tab, isfix=isfix) for k in range(1, len(self.content) - 1))",
+        "last_child_at_tab@ret1": "implies(len(self.content) > 1, mylist[len(mylist) - 1] == self.content[len(self.content) - 1].tofortran(tab=tab, isfix=isfix))",
+        "joined_by_newlines@ret1": "result == '\\n'.join(mylist)",
+        "body_indented_iff_end_statement@ret1": "extra_tab == ('  ' if typeof_is(self.content[len(self.content) - 1], 'EndStmtBase') else '')",
+    },
+    raises=[],
+    loops={0: dict(seq="mid", invariant={
+        "pieces": "len(mylist) == 1 + _k0 and mid == self.content[1:len(self.content) - 1]",
+        "first": "mylist[0] == self.content[0].tofortran(tab=tab, isfix=isfix)",
+        "in_order": "all(mylist[k] == self.content[k].tofortran(tab=tab + extra_tab, isfix=isfix) for k in range(1, 1 + _k0))",
+    })},
+    serves=["C01", "C02", "C10", "C11"],
+    note="content holds nodes only (start is not None: blocks are built by BlockBase.match, which appends matched nodes)",
+)
